@@ -112,3 +112,23 @@ class ProxyMath:
     @staticmethod
     def isfinite(x):
         return True if is_sym(x) else math.isfinite(x)
+
+
+def install_global_math():
+    """make the functions of the `math` module that are exact over the reals accept proxies wherever pams code calls
+    them (math.isclose / fabs / isnan / isinf / isfinite); plain numbers go to the original functions."""
+    if getattr(math, "_sx_patched", False):
+        return
+    orig = {n: getattr(math, n) for n in ("isclose", "fabs", "isnan", "isinf", "isfinite")}
+
+    def isclose(a, b, *, rel_tol=1e-09, abs_tol=0.0):
+        if not (is_sym(a) or is_sym(b)):
+            return orig["isclose"](a, b, rel_tol=rel_tol, abs_tol=abs_tol)
+        diff = abs(a - b)
+        return sor(a == b, diff <= rel_tol * abs(a), diff <= rel_tol * abs(b), diff <= abs_tol)
+    math.isclose = isclose
+    math.fabs = lambda x: abs(x) if is_sym(x) else orig["fabs"](x)
+    math.isnan = lambda x: False if is_sym(x) else orig["isnan"](x)
+    math.isinf = lambda x: False if is_sym(x) else orig["isinf"](x)
+    math.isfinite = lambda x: True if is_sym(x) else orig["isfinite"](x)
+    math._sx_patched = True
